@@ -338,10 +338,7 @@ Proof.
   intros HA Eu Ev Hop Hf Har. pose proof HA as (HI&Hr&HC&Hv&_).
   destruct (olook_valid a hv v HA Ev) as [Hvv Hvr].
   unfold f_apply. rewrite node_of_bind, Eu, onode_of_bind.
-  assert (Hrun : ∀ H : dyn_out a (fun x s' => ∀ ρ, denv s' x ρ =
-               f (denv (mgr a) u ρ) (odenv (mgr a) v ρ) false) r a' → Prop, True) by done.
-  clear Hrun.
-  assert (Hgo : (r0 ← lift (apply op u v None);; wrap r0) a = (r, a') →
+  assert (Hgo : (r0 <- lift (apply op u v None) ;; wrap r0) a = (r, a') →
     dyn_out a (fun x s' => ∀ ρ, denv s' x ρ =
                f (denv (mgr a) u ρ) (odenv (mgr a) v ρ) false) r a').
   { apply lift_wrap_dyn; [done|apply (stable_eq (fun ρ => f _ _ false))|]. intros r0 s' E.
@@ -360,7 +357,7 @@ Proof.
   intros HA Eu Ev Ew Hop Hf Har. pose proof HA as (HI&Hr&HC&Hv&_).
   destruct (olook_valid a hv v HA Ev) as [Hvv Hvr].
   destruct (olook_valid a hw w HA Ew) as [Hwv Hwr].
-  assert (Hgo : (r0 ← lift (apply op u v w);; wrap r0) a = (r, a') →
+  assert (Hgo : (r0 <- lift (apply op u v w) ;; wrap r0) a = (r, a') →
     dyn_out a (fun x s' => ∀ ρ, denv s' x ρ =
                f (denv (mgr a) u ρ) (odenv (mgr a) v ρ) (odenv (mgr a) w ρ)) r a').
   { apply lift_wrap_dyn; [done|apply (stable_eq (fun ρ => f _ _ _))|]. intros r0 s' E.
@@ -373,7 +370,6 @@ Proof.
     rewrite onode_of_bind, Ew. by rewrite check_in_bind by done.
   - cbn [bind ret]. rewrite onode_of_bind, Ev. rewrite check_in_bind by done.
     rewrite onode_of_bind. done.
-  - by rewrite arity_ok_None_Some in Har.
   - cbn [bind ret]. rewrite onode_of_bind. cbn [bind ret]. rewrite onode_of_bind. done.
 Qed.
 
@@ -386,7 +382,7 @@ Theorem f_apply_rejected op hu hv a r a' u v :
   r = Err EValue ∧ mgr a' = mgr a ∧ handles a' = handles a ∧ next_hid a' = next_hid a.
 Proof.
   intros Eu Ev Hrej. unfold f_apply. rewrite node_of_bind, Eu, onode_of_bind.
-  assert (Hgo : (r0 ← lift (apply op u v None);; wrap r0) a = (r, a') →
+  assert (Hgo : (r0 <- lift (apply op u v None) ;; wrap r0) a = (r, a') →
     r = Err EValue ∧ mgr a' = mgr a ∧ handles a' = handles a ∧ next_hid a' = next_hid a).
   { unfold bind, lift. rewrite (apply_rejected (mgr a) op u v None) by tauto.
     by intros [= <- <-]. }
